@@ -79,6 +79,17 @@ class LineBudget(object):
     for c in codes:
       mon.set_local_events(self._tool, c, mon.events.LINE)
     self.n_code_objects = len(codes)
+    import atexit
+    atexit.register(self._uninstall)
+
+  def _uninstall(self):
+    """No callbacks while the interpreter tears modules down."""
+    self.active = False
+    try:
+      sys.monitoring.register_callback(self._tool, sys.monitoring.events.LINE, None)
+      sys.monitoring.free_tool_id(self._tool)
+    except Exception:
+      pass
 
   def _collect(self, v, files, codes, seen, depth):
     if depth > 6:
